@@ -378,11 +378,20 @@ impl ParScript {
     }
 }
 
+/// the base consumer of the scripted drives: collects the items; its folders report full() after PAR_CAP items (0 = never),
+/// and PAR_TAKEN counts every item a base folder really took
+static PAR_CAP: AtomicUsize = AtomicUsize::new(0);
+static PAR_TAKEN: AtomicUsize = AtomicUsize::new(0);
 struct Collect;
 struct CollectFolder(Vec<usize>);
 struct Concat;
 impl Reducer<Vec<usize>> for Concat { fn reduce(self, mut l: Vec<usize>, r: Vec<usize>) -> Vec<usize> { l.extend(r); l } }
-impl Folder<usize> for CollectFolder { type Result = Vec<usize>; fn consume(mut self, item: usize) -> Self { self.0.push(item); self } fn complete(self) -> Vec<usize> { self.0 } fn full(&self) -> bool { false } }
+impl Folder<usize> for CollectFolder {
+    type Result = Vec<usize>;
+    fn consume(mut self, item: usize) -> Self { self.0.push(item); PAR_TAKEN.fetch_add(1, Ordering::SeqCst); self }
+    fn complete(self) -> Vec<usize> { self.0 }
+    fn full(&self) -> bool { let c = PAR_CAP.load(Ordering::SeqCst); c > 0 && self.0.len() >= c }
+}
 impl Consumer<usize> for Collect {
     type Folder = CollectFolder; type Reducer = Concat; type Result = Vec<usize>;
     fn split_at(self, _index: usize) -> (Self, Self, Concat) { (Collect, Collect, Concat) }
@@ -417,6 +426,17 @@ impl Source {
                 ("split", CNode::Leaf(c)) => { let (l, r, red) = split(c, op["at"].as_u64().unwrap_or(1) as usize); nodes.insert(2 * id, CNode::Leaf(l)); nodes.insert(2 * id + 1, CNode::Leaf(r)); nodes.insert(id, CNode::Split(red)); sc.log(i, &op, -1, true); }
                 ("item", CNode::Leaf(c)) => { let f = c.into_folder().consume(op["want"].as_u64().unwrap_or(0) as usize); nodes.insert(id, CNode::Folding(f)); sc.log(i, &op, op["want"].as_i64().unwrap_or(0), true); }
                 ("item", CNode::Folding(f)) => { let f = f.consume(op["want"].as_u64().unwrap_or(0) as usize); nodes.insert(id, CNode::Folding(f)); sc.log(i, &op, op["want"].as_i64().unwrap_or(0), true); }
+                ("items", cur @ (CNode::Leaf(_) | CNode::Folding(_))) => {
+                    // Folder::consume_iter with k items at once; what the base folder took is counted by the base folder itself
+                    let f = match cur { CNode::Leaf(c) => c.into_folder(), CNode::Folding(f) => f, _ => unreachable!() };
+                    let first = op["want"].as_u64().unwrap_or(0) as usize;
+                    let k = op["k"].as_u64().unwrap_or(0) as usize;
+                    let before = PAR_TAKEN.load(Ordering::SeqCst);
+                    let f = f.consume_iter(first..first + k);
+                    let got = PAR_TAKEN.load(Ordering::SeqCst) - before;
+                    nodes.insert(id, CNode::Folding(f));
+                    sc.log(i, &op, got as i64, true);
+                }
                 ("end", CNode::Leaf(c)) => { nodes.insert(id, CNode::Done(c.into_folder().complete())); sc.log(i, &op, -1, true); }
                 ("end", CNode::Folding(f)) => { nodes.insert(id, CNode::Done(f.complete())); sc.log(i, &op, -1, true); }
                 (_, other) => { nodes.insert(id, other); sc.log(i, &op, -1, false); }
@@ -490,6 +510,9 @@ fn run_par(hist: &Value, out: &mut dyn Write) {
                 let path = op["path"].as_str().unwrap_or("consumer");
                 let s = Arc::new(ParScript { ops: ops.clone(), h: h.clone(), pb: pb.clone(), recs: Mutex::new(vec![]), next: AtomicUsize::new(i + 1), rev: path == "producer_rev", unindexed: path == "unindexed" });
                 let n = op["n"].as_u64().unwrap_or(0) as usize;
+                let cap = op["cap"].as_u64().unwrap_or(0) as usize;
+                PAR_CAP.store(cap, Ordering::SeqCst);
+                PAR_TAKEN.store(0, Ordering::SeqCst);
                 observe(&mut rec, &pb);
                 writeln!(out, "{}", Value::Object(rec)).unwrap();
                 // run the whole scripted drive; the records of the inner steps are collected by the script
@@ -510,10 +533,12 @@ fn run_par(hist: &Value, out: &mut dyn Write) {
                 drec.insert("op".into(), json!("done"));
                 drec.insert("got".into(), json!(-1)); drec.insert("ok".into(), json!(true)); drec.insert("early".into(), json!(false));
                 match r {
-                    Ok(v) => { drec.insert("same".into(), json!(v == (0..n).collect::<Vec<usize>>())); }
+                    // with folders that fill up the result is what the base folders took, otherwise all the items in order
+                    Ok(v) => { drec.insert("same".into(), json!(if cap > 0 { v.len() == PAR_TAKEN.load(Ordering::SeqCst) } else { v == (0..n).collect::<Vec<usize>>() })); }
                     Err(e) => { drec.insert("panic".into(), json!(panic_msg(e))); }
                 }
                 observe(&mut drec, &pb);
+                PAR_CAP.store(0, Ordering::SeqCst);
                 sc = Some(s);
                 // a behaviour cut short (replay of a prefix) has no `done`: nothing to compare then
                 let has_done = ops.get(i).map(|o| o["op"] == "done").unwrap_or(false);
